@@ -150,6 +150,12 @@ def symmetric(mol):
     return True
 
 
+def symmetric_all(mol):
+    """the live graph and, inside a transaction, the snapshot graph are well-formed (what the model's `Mol.WF` decides)"""
+    bk = slot(mol, '_backup')[1]
+    return symmetric(mol) and (bk is None or symmetric(bk))
+
+
 def rebuild_exact(mol, recalc_h=False, atoms=None):
     """independent rebuild through the public constructor API that reproduces the atom order AND every atom's
     neighbour order (bonds are added in a linear order compatible with all per-atom neighbour orders; one exists for
@@ -618,7 +624,7 @@ def run_real(seed_mol, ops):
                          'obs': keys_of(tgt), 'objs': [observe(o) for o in objs],
                          'stale': [flags.filter(j, staleness(o)) if quiescent(o) and symmetric(o) else None
                                    for j, o in enumerate(objs)],
-                         'sym': [symmetric(o) for o in objs]})
+                         'sym': [symmetric(o) for o in objs], 'wf': [symmetric_all(o) for o in objs]})
             if exc is not None:
                 break
     return recs
@@ -677,6 +683,9 @@ def compare(recs, blocks):
             for f in ('keys', 'changed', 'backup', 'name', 'meta', 'xy', 'mol'):
                 if ro[f] != mo[f]:
                     diffs.append(f'{tag}: obj {j} {f}: real {ro[f][:300]} | model {mo[f][:300]}')
+            if mo.get('wf') != ('1' if r['wf'][j] else '0'):
+                diffs.append(f'{tag}: obj {j} well-formed graph (keys, symmetric adjacency, shared bond; live + snapshot): '
+                             f'real {r["wf"][j]} model {mo.get("wf")}')
             st = r['stale'][j]
             if st is not None and not crashed:
                 stale, lab, hst, _ = st
